@@ -216,7 +216,7 @@ fn exec(w: &mut World, line: &str) -> String {
                     }
                     "ok".into()
                 }
-                Err(e) => format!("err {}", err_class(&e)),
+                Err(e) => format!("err {}", merge_err_class(&other, &e)),
             }
         }
         ["inject", r, o] => {
@@ -286,6 +286,40 @@ fn exec(w: &mut World, line: &str) -> String {
         }
         ["size", c] => format!("size {}", w.crdts[&num(c)].size()),
         _ => "bad-op".into(),
+    }
+}
+
+/// How a refused merge is printed. `verified_merge` reports the first failing check of the first failing op of the
+/// other side *in the order of its op set* — a `BTreeSet<RegisterOp>` ordered by the ops' bytes, signature included,
+/// which the model does not have. When the ops of the other side fail for different reasons (possible only for a copy
+/// built with `inject`) the refusal is therefore printed as the class `op`, after checking on the real code that the
+/// reported reason is one of those present (each op's own first failing check is asked of the real `verify()` on a copy
+/// holding that single op); with a single reason present it is printed as it is.
+fn merge_err_class(other: &SignedRegister, e: &ant_registers::Error) -> String {
+    use ant_registers::Error::*;
+    if matches!(e, TooManyEntries(_) | DifferentBaseRegister) {
+        return err_class(e);
+    }
+    let sig = signature_of(other);
+    let base_ok = other.owner().verify(&sig, other.base_register().bytes().expect("bytes"));
+    if !base_ok {
+        return err_class(e); // the owner signature is checked before any op
+    }
+    let classes: BTreeSet<String> = other
+        .ops()
+        .iter()
+        .filter_map(|op| {
+            let one = SignedRegister::new(other.base_register().clone(), sig.clone(), [op.clone()].into_iter().collect());
+            one.verify().err().map(|e| err_class(&e))
+        })
+        .collect();
+    if classes.len() < 2 {
+        return err_class(e);
+    }
+    if classes.contains(&err_class(e)) {
+        "op".into()
+    } else {
+        format!("?{}-is-not-a-defect-of-any-op-held({})", err_class(e), classes.into_iter().collect::<Vec<_>>().join(","))
     }
 }
 
